@@ -617,12 +617,14 @@ class P(Prop):
         (M, "TV.C07.mut_path_cut_sound", "the same with any cut-off: a returned track is a real route of the current network weighing the reported value, which is >= the current distance and equal to it unless it exceeds the cut-off"),
         (M, "TV.C07.mut_geometry_chained", "T3 on the modified network: if NOW every polyline joins the current positions of its ends, the returned geometry = current pos s followed by the used edges' current polylines along the travel, each minus its first vertex; ends at the current pos t; no analytical feature"),
         (M, "TV.C07.orientation_attribute_not_read", "getEdge(i).orientation = x on a built network changes an attribute that only addEdge reads: every later call (routing, modification, addEdge) returns exactly what it would have returned without the assignment"),
+        (M, "TV.C07.path_any_history", "ANY history, orientation assignments included: shortest_path(s,t,cut) = shortest_path on a fresh network holding the content that the same history without its orientation assignments produces (current weights, polylines, coordinates; each edge with the orientation it was added with)"),
+        (M, "TV.C07.mut_never_diverges", "in any sequence of calls on a new network (modifications, orientation assignments, stopped searches, run_routing_backward on flags older than the last modification, unknown nodes) no shortest_path / run_routing_backward loops for ever"),
         (M, "TV.C07.path_after_orientation_assignment", "after getEdge(i).orientation = x a shortest_path still answers for the content before the assignment (the orientations the edges were added with)"),
     ]
     partial = []
     open_statements = ["Track.copy is modelled as the identity on (points, feature table): that the returned track shares no Obs / coordinate object with the network is not a theorem; the harness checks it by moving the points of every returned track (scribble stream) and validating the later answers of the session",
                        "arithmetic: every theorem holds for any addition satisfying WalkAdd (x <= x + w for w >= 0, and + monotone on the right; associativity, commutativity and cancellation are not used, see the R4 example), i.e. for the sums as the code rounds them; that IEEE-754 double addition satisfies WalkAdd is not proved in Lean (Float is opaque) — the float streams run the model at Float bit for bit",
-                       "run_routing_backward on flags older than the last modification of the network (old antecedents, new weights / polylines): nothing is stated and nothing is proved beyond termination of the model's loop; the harness compares with the model only",
+                       "run_routing_backward on flags older than the last modification of the network (old antecedents, new weights / polylines): nothing is stated; proved: the loop ends (mut_never_diverges); what it returns is compared with the model only",
                        "modifications through Network.simplify / toENUCoords / toGeoCoords (they replace every edge geometry / node coordinate) and routing on a sub_network (a second Network sharing the Node and Edge objects) are not in the model; the library has no call that removes an edge or a node",
                        "getEdge(i).orientation = x on a built network: proved NOT to be read by routing (orientation_attribute_not_read) — the property read with the current attribute fails there; proposed finding %s (findings/C07.json), its inputs are generated once it is listed" % ORI_FROZEN]
     modelled = ("Network.addNode / addEdge (NODES with first registration winning, EDGES, NEXT_EDGES filled incrementally; proved to give the model's adjacency); "
